@@ -164,6 +164,35 @@ def check_laws(case):
          str(x))
     same(Tensor.caps(x, x.l), E.reshape(1, n * n), "caps-pair-mirror-wires",
          str(x))
+    # the same cups, caps and snakes as images of rigid cups and caps under
+    # a tensor functor sending one object to several wires (the library
+    # sends an object and its adjoints to the same Dim, so the image has to
+    # read the same backwards for the request to be well-typed)
+    from discopy import rigid, tensor
+    pal = list(xs) if list(xs) == list(xs)[::-1] else list(xs) + list(xs)[::-1]
+    if size(pal) <= 36:
+        t, P, m = rigid.Ty("t"), Dim(*pal), size(pal)
+        F = tensor.Functor(ob={t: P}, ar={})
+        EP = np.zeros((m, m), dtype=np.int64)
+        for idx in np.ndindex(*pal) if pal else [()]:
+            i = int(np.ravel_multi_index(idx, pal)) if pal else 0
+            j = int(np.ravel_multi_index(idx[::-1], pal[::-1])) if pal else 0
+            EP[i, j] = 1
+        for cup in (rigid.Cup(t, t.r), rigid.Cup(t.l, t)):
+            same(F(cup), EP.reshape(m * m, 1), "functor-cup-image",
+                 "{} with t -> {}".format(cup, P))
+        for cap in (rigid.Cap(t, t.l), rigid.Cap(t.r, t)):
+            same(F(cap), EP.reshape(1, m * m), "functor-cap-image",
+                 "{} with t -> {}".format(cap, P))
+        for snake in (
+                rigid.Cap(t, t.l) @ rigid.Id(t) >> rigid.Id(t)
+                @ rigid.Cup(t.l, t),
+                rigid.Id(t) @ rigid.Cap(t.r, t) >> rigid.Cup(t, t.r)
+                @ rigid.Id(t),
+                (rigid.Cap(t, t.l) @ rigid.Id(t) >> rigid.Id(t)
+                 @ rigid.Cup(t.l, t)).dagger()):
+            same(F(snake), np.eye(m), "functor-snake-image",
+                 "{} with t -> {}".format(snake, P))
     nt = any(len(set(t)) >= 2 for t in (sa["dom"], sa["cod"], sb["dom"],
                                         sb["cod"], l + r, xs))
     return dict(nt=nt, labels=["w%d" % len(sa["dom"] + sa["cod"])],
